@@ -65,7 +65,6 @@ unsafe fn get_carry_avx(
 #[cfg(target_arch = "x86_64")]
 #[target_feature(enable = "avx2")]
 pub fn znx_extract_digit_addmul_avx(base2k: usize, lsh: usize, res: &mut [i64], src: &mut [i64]) {
-    #[cfg(debug_assertions)]
     {
         assert_eq!(res.len(), src.len());
     }
@@ -119,7 +118,6 @@ pub fn znx_extract_digit_addmul_avx(base2k: usize, lsh: usize, res: &mut [i64], 
 #[cfg(target_arch = "x86_64")]
 #[target_feature(enable = "avx2")]
 pub fn znx_normalize_digit_avx(base2k: usize, res: &mut [i64], src: &mut [i64]) {
-    #[cfg(debug_assertions)]
     {
         assert_eq!(res.len(), src.len());
     }
@@ -171,7 +169,6 @@ pub fn znx_normalize_digit_avx(base2k: usize, res: &mut [i64], src: &mut [i64]) 
 /// all inputs must have the same length and must not alias.
 #[target_feature(enable = "avx2")]
 pub fn znx_normalize_first_step_carry_only_avx(base2k: usize, lsh: usize, x: &[i64], carry: &mut [i64]) {
-    #[cfg(debug_assertions)]
     {
         assert!(x.len() <= carry.len());
         assert!(lsh < base2k);
@@ -222,7 +219,6 @@ pub fn znx_normalize_first_step_carry_only_avx(base2k: usize, lsh: usize, x: &[i
 /// all inputs must have the same length and must not alias.
 #[target_feature(enable = "avx2")]
 pub fn znx_normalize_first_step_assign_avx(base2k: usize, lsh: usize, x: &mut [i64], carry: &mut [i64]) {
-    #[cfg(debug_assertions)]
     {
         assert!(x.len() <= carry.len());
         assert!(lsh < base2k);
@@ -298,7 +294,6 @@ pub fn znx_normalize_first_step_avx<const OVERWRITE: bool>(
     a: &[i64],
     carry: &mut [i64],
 ) {
-    #[cfg(debug_assertions)]
     {
         assert_eq!(x.len(), a.len());
         assert!(x.len() <= carry.len());
@@ -387,7 +382,6 @@ pub fn znx_normalize_first_step_avx<const OVERWRITE: bool>(
 /// all inputs must have the same length and must not alias.
 #[target_feature(enable = "avx2")]
 pub fn znx_normalize_middle_step_assign_avx(base2k: usize, lsh: usize, x: &mut [i64], carry: &mut [i64]) {
-    #[cfg(debug_assertions)]
     {
         assert!(x.len() <= carry.len());
         assert!(lsh < base2k);
@@ -466,7 +460,6 @@ pub fn znx_normalize_middle_step_assign_avx(base2k: usize, lsh: usize, x: &mut [
 /// all inputs must have the same length and must not alias.
 #[target_feature(enable = "avx2")]
 pub fn znx_normalize_middle_step_carry_only_avx(base2k: usize, lsh: usize, x: &[i64], carry: &mut [i64]) {
-    #[cfg(debug_assertions)]
     {
         assert!(x.len() <= carry.len());
         assert!(lsh < base2k);
@@ -549,7 +542,6 @@ pub fn znx_normalize_middle_step_avx<const OVERWRITE: bool>(
     a: &[i64],
     carry: &mut [i64],
 ) {
-    #[cfg(debug_assertions)]
     {
         assert_eq!(x.len(), a.len());
         assert!(x.len() <= carry.len());
@@ -644,7 +636,6 @@ pub fn znx_normalize_middle_step_avx<const OVERWRITE: bool>(
 /// all inputs must have the same length and must not alias.
 #[target_feature(enable = "avx2")]
 pub fn znx_normalize_middle_step_sub_avx(base2k: usize, lsh: usize, x: &mut [i64], a: &[i64], carry: &mut [i64]) {
-    #[cfg(debug_assertions)]
     {
         assert_eq!(x.len(), a.len());
         assert!(x.len() <= carry.len());
@@ -729,7 +720,6 @@ pub fn znx_normalize_middle_step_sub_avx(base2k: usize, lsh: usize, x: &mut [i64
 /// all inputs must have the same length and must not alias.
 #[target_feature(enable = "avx2")]
 pub fn znx_normalize_final_step_assign_avx(base2k: usize, lsh: usize, x: &mut [i64], carry: &mut [i64]) {
-    #[cfg(debug_assertions)]
     {
         assert!(x.len() <= carry.len());
         assert!(lsh < base2k);
@@ -805,7 +795,6 @@ pub fn znx_normalize_final_step_avx<const OVERWRITE: bool>(
     a: &[i64],
     carry: &mut [i64],
 ) {
-    #[cfg(debug_assertions)]
     {
         assert_eq!(x.len(), a.len());
         assert!(x.len() <= carry.len());
@@ -888,7 +877,6 @@ pub fn znx_normalize_final_step_avx<const OVERWRITE: bool>(
 /// all inputs must have the same length and must not alias.
 #[target_feature(enable = "avx2")]
 pub fn znx_normalize_final_step_sub_avx(base2k: usize, lsh: usize, x: &mut [i64], a: &[i64], carry: &mut [i64]) {
-    #[cfg(debug_assertions)]
     {
         assert_eq!(x.len(), a.len());
         assert!(x.len() <= carry.len());
